@@ -105,4 +105,3 @@ func ZZ_C19_check_instance() {
 	zz.Assert(zz.Implies(cfg.EnableENITrunking, trunkBefore && l.MemberAdapterLimit > 0), "trunking stays enabled only with a positive member-adapter limit")
 	zz.Assert(zz.Implies(cfg.EnableERDMA, erdmaBefore && l.ERDMARes() > 0), "ERDMA stays enabled only when the instance has RDMA interfaces to give")
 }
-
